@@ -68,8 +68,19 @@ Fixpoint split_on (c : N) (s : str) : list str :=
 Definition ENUM : str := [101; 110; 117; 109]%N.
 Definition family (dt : str) : str := match split_on 58%N dt with h :: _ => h | [] => [] end.
 
-(* DataType.is_valid_upgrade_of; `enum_exact` = compare the choices instead of the raw string prefix *)
+Fixpoint lprefixb (p l : list str) : bool :=
+  match p, l with
+  | [], _ => true
+  | x :: ps, y :: ls => str_eqb x y && lprefixb ps ls
+  | _ :: _, [] => false
+  end.
+(* DataType.is_valid_upgrade_of: both enums, more choices, the existing choices kept in place *)
 Definition dt_upgrade (old new : str) : bool :=
+  str_eqb (family new) ENUM && str_eqb (family old) ENUM &&
+  Nat.ltb (length (split_on 58%N old)) (length (split_on 58%N new)) &&
+  lprefixb (split_on 58%N old) (split_on 58%N new).
+(* the pinned code compared the data type strings: enum:a:b -> enum:a:bc:d passed *)
+Definition dt_upgrade_pinned (old new : str) : bool :=
   str_eqb (family new) ENUM && str_eqb (family old) ENUM &&
   Nat.ltb (length (split_on 58%N old)) (length (split_on 58%N new)) &&
   prefixb old new.
